@@ -18,9 +18,9 @@
   The two `_partial` theorems are the ENCODER half.  The decoder half and the full property are in the
   second part of this file: `C05_walk_compressed_roundtrip`, `C05_walk_subset_canon`,
   `C05_walk_transparent`, `C05_walk_transparent_eq`, for `encodeCompressedT` — `encodeCompressedX`
-  with the further refusals without which compressed and uncompressed decoding differ (a present
-  value that is the all-ones pattern of its field, a missing value in a one-bit field, fields wider
-  than 64 bits, structural values that do not read back as supplied); see there.
+  with the further refusals without which compressed and uncompressed decoding differ (a missing
+  value in a one-bit field next to present ones, fields wider than 64 bits, structural values that do
+  not read back as supplied); see there.
 -/
 import BufrModel.Lemmas.SimComp
 import BufrModel.Lemmas.SimCompDec
@@ -169,11 +169,12 @@ end C05WalkEx
 
   The statements are about `encodeCompressedT`: the compressed encoder CHECKED FOR TRANSPARENCY
   (`encPrimsCT`, `Lemmas/SimCompDec.lean`), i.e. `encodeCompressedX` with ghost rows (per subset, the
-  values a decoder returns) and the further refusals listed at `encPrimsCT`: fields wider than 64
-  bits; a present numeric / code / flag value that is the all-ones pattern of a field wider than one
-  bit; a missing value in a one-bit field; a replication factor or bitmap entry whose field does not
-  read back as supplied.  Each is shown necessary by an example below (`C05WalkTEx`).  Whenever it
-  succeeds,
+  values a decoder returns) and the further refusals listed at `encPrimsCT`: numeric / code / flag
+  fields wider than 64 bits; a missing value in a ONE-BIT field of a column whose subsets do not all
+  supply the same value; a replication factor or bitmap entry whose field does not read back as
+  supplied.  Each is shown necessary by an example below (`C05WalkTEx`).  A present value equal to the
+  all-ones pattern of its field is NOT refused (since the repair of finding F18 both forms read it
+  back as missing).  Whenever it succeeds,
     * `encodeCompressedX`, hence the real compressed encoder, succeeds with the same report and
       bits                                                              (`C05_walk_eraseT`);
     * the compressed decoder, run on those bits followed by anything, consumes exactly them and
@@ -421,33 +422,22 @@ def tmpl1 : List Desc := [ .elem { id := 12001, kind := .numeric, nbits := 1, sc
 def tmpl65 : List Desc := [ .elem { id := 12001, kind := .numeric, nbits := 65, scale := 0, ref := 0 } ]
 def tmpl63 : List Desc := [ .elem { id := 12001, kind := .numeric, nbits := 63, scale := 0, ref := 0 } ]
 
-/-- Refusal 3 is necessary (a present value equal to the all-ones pattern, next to another value):
-    `encodeCompressedX` accepts, `encodeCompressedT` refuses; compressed the 255 comes back as 255,
-    uncompressed as missing. -/
-example :
-    (encodeCompressedX tmpl8 [[.int 0], [.int 255]]).toBool = true ∧
-    (encodeCompressedT tmpl8 [[.int 0], [.int 255]]).toBool = false ∧
-    (roundTripData tmpl8 true [[.int 0], [.int 255]]).map (·.map (·.vals)) = .ok [[.int 0], [.int 255]] ∧
-    (roundTripData tmpl8 false [[.int 0], [.int 255]]).map (·.map (·.vals)) = .ok [[.int 0], [.missing]] := by
-  decide +kernel
-
-/-- Refusal 3 is necessary for code / flag tables too (all ones as the MINIMUM of a column with a
-    missing entry): the compressed decoder refuses the column the compressed encoder wrote
-    (increments after an all-ones minimum), uncompressed both entries read back missing. -/
-example :
-    (encodeCompressedX tmplC4 [[.int 15], [.missing]]).toBool = true ∧
-    (encodeCompressedT tmplC4 [[.int 15], [.missing]]).toBool = false ∧
-    roundTripData tmplC4 true [[.int 15], [.missing]] = .error .other ∧
-    (roundTripData tmplC4 false [[.int 15], [.missing]]).map (·.map (·.vals)) = .ok [[.missing], [.missing]] := by
-  decide +kernel
-
-/-- Refusal 4 is necessary (a missing value in a one-bit field): compressed it comes back missing,
+/-- Refusal 3 is necessary (a missing value in a one-bit field, next to a present value):
+    `encodeCompressedX` accepts, `encodeCompressedT` refuses; compressed it comes back missing,
     uncompressed as the value 1. -/
 example :
     (encodeCompressedX tmpl1 [[.missing], [.int 0]]).toBool = true ∧
     (encodeCompressedT tmpl1 [[.missing], [.int 0]]).toBool = false ∧
     (roundTripData tmpl1 true [[.missing], [.int 0]]).map (·.map (·.vals)) = .ok [[.missing], [.int 0]] ∧
     (roundTripData tmpl1 false [[.missing], [.int 0]]).map (·.map (·.vals)) = .ok [[.int 1], [.int 0]] := by
+  decide +kernel
+
+/-- … and it is tight: when all subsets are missing in the one-bit field no increments are written,
+    both forms read back the value 1, and `encodeCompressedT` accepts. -/
+example :
+    (encodeCompressedT tmpl1 [[.missing], [.missing]]).toBool = true ∧
+    roundTripData tmpl1 true [[.missing], [.missing]] = roundTripData tmpl1 false [[.missing], [.missing]] ∧
+    (roundTripData tmpl1 true [[.missing], [.missing]]).map (·.map (·.vals)) = .ok [[.int 1], [.int 1]] := by
   decide +kernel
 
 /-- Refusal 2 (a field wider than 64 bits) is necessary for the ROUND TRIP statements: both encoders
@@ -459,6 +449,29 @@ example :
     roundTripData tmpl65 false [[.int 0], [.int 1]] = .error .other := by
   decide +kernel
 
+/-- Refusal 1 is necessary (`C05WalkEx` above): 300 in an 8-bit field is refused uncompressed, written
+    and read back compressed.  Here: `encodeCompressedT` refuses it, one form fails, the other not. -/
+example :
+    (encodeCompressedT tmpl8 [[.int 0], [.int 300]]).toBool = false ∧
+    (roundTripData tmpl8 true [[.int 0], [.int 300]]).map (·.map (·.vals)) = .ok [[.int 0], [.int 300]] ∧
+    (roundTripData tmpl8 false [[.int 0], [.int 300]]).toBool = false := by
+  decide +kernel
+
+/-- NOT refused: a present value that is the all-ones pattern of its field (255 in 8 bits, 15 in a
+    4-bit code table — also as the minimum of a column, next to a missing entry).  Since the repair
+    of finding F18 (`encIntColumnN`) the compressed encoder writes it as missing, which is what the
+    uncompressed field reads back as: accepted, and both forms decode to missing. -/
+example :
+    (encodeCompressedT tmpl8 [[.int 0], [.int 255]]).toBool = true ∧
+    (roundTripData tmpl8 true [[.int 0], [.int 255]]).map (·.map (·.vals)) = .ok [[.int 0], [.missing]] ∧
+    (roundTripData tmpl8 false [[.int 0], [.int 255]]).map (·.map (·.vals)) = .ok [[.int 0], [.missing]] ∧
+    (encodeCompressedT tmplC4 [[.int 15], [.missing]]).toBool = true ∧
+    (roundTripData tmplC4 true [[.int 15], [.missing]]).map (·.map (·.vals)) = .ok [[.missing], [.missing]] ∧
+    (roundTripData tmplC4 false [[.int 15], [.missing]]).map (·.map (·.vals)) = .ok [[.missing], [.missing]] ∧
+    (encodeCompressedT tmpl8 [[.int 255], [.int 255]]).toBool = true ∧
+    (roundTripData tmpl8 true [[.int 255], [.int 255]]).map (·.map (·.vals)) = .ok [[.missing], [.missing]] := by
+  decide +kernel
+
 /-- No refusal is needed for `Spec.SpanOK`: on a column whose spread needs a 64-bit increment the
     compressed encoder itself fails (the uncompressed one does not: compression is not transparent
     for ACCEPTANCE on 63- and 64-bit fields). -/
@@ -468,16 +481,19 @@ example :
       = .ok [[.int 0], [.int (2 ^ 63 - 2)]] := by
   decide +kernel
 
-/-- Refusals 3 and 4 are stated per value and are therefore coarser than necessary in ONE situation:
-    a column whose subsets all supply the same value (no increments are written).  There both forms
-    agree — all ones reads back missing, a missing one-bit value reads back 1 — although
-    `encodeCompressedT` refuses. -/
+/-- Refusal 4 is necessary: a replication factor that does not read back as supplied.  The factor
+    element has scale 1 here, so the supplied 2 is written as 20 and read back as 2.0 — a decimal, on
+    which the decoders fail; both encoders replicate by the supplied 2. -/
+def tmplF : List Desc :=
+  [ .delayedRep 101000 (.elem { id := 31001, kind := .numeric, nbits := 8, scale := 1, ref := 0 })
+      [ .elem { id := 20003, kind := .codeflag, nbits := 4, scale := 0, ref := 0 } ] ]
+
 example :
-    (encodeCompressedT tmpl8 [[.int 255], [.int 255]]).toBool = false ∧
-    roundTripData tmpl8 true [[.int 255], [.int 255]] = roundTripData tmpl8 false [[.int 255], [.int 255]] ∧
-    (roundTripData tmpl8 true [[.int 255], [.int 255]]).map (·.map (·.vals)) = .ok [[.missing], [.missing]] ∧
-    roundTripData tmpl1 true [[.missing], [.missing]] = roundTripData tmpl1 false [[.missing], [.missing]] ∧
-    (roundTripData tmpl1 true [[.missing], [.missing]]).map (·.map (·.vals)) = .ok [[.int 1], [.int 1]] := by
+    (encodeCompressedX tmplF [[.int 2, .int 1, .int 1], [.int 2, .int 3, .int 1]]).toBool = true ∧
+    (encodeCompressedT tmplF [[.int 2, .int 1, .int 1], [.int 2, .int 3, .int 1]]).toBool = false ∧
+    (encodeData tmplF false [[.int 2, .int 1, .int 1], [.int 2, .int 3, .int 1]]).toBool = true ∧
+    (roundTripData tmplF true [[.int 2, .int 1, .int 1], [.int 2, .int 3, .int 1]]).toBool = false ∧
+    (roundTripData tmplF false [[.int 2, .int 1, .int 1], [.int 2, .int 3, .int 1]]).toBool = false := by
   decide +kernel
 
 end C05WalkTEx
